@@ -8,6 +8,7 @@
     :copyright: (c) 2013-present by Abhinav Singh and contributors.
     :license: BSD, see LICENSE for more details.
 """
+import os
 import re
 import time
 import socket
@@ -315,6 +316,12 @@ class HttpWebServerPlugin(HttpProtocolHandlerPlugin):
 
     def _try_static_or_404(self, path: bytes) -> None:
         path = text_(path).split('?', 1)[0]
+        # Resolve dot segments; never leave the static directory.
+        root = os.path.abspath(self.flags.static_server_dir)
+        target = os.path.abspath(self.flags.static_server_dir + path)
+        if target != root and not target.startswith(root.rstrip(os.sep) + os.sep):
+            self.client.queue(NOT_FOUND_RESPONSE_PKT)
+            return
         self.client.queue(
             HttpWebServerBasePlugin.serve_static_file(
                 self.flags.static_server_dir + path,
